@@ -81,6 +81,32 @@ fn wire_centry(w: &WEntry) -> String {
 
 impl Client {
     /// Apply one request, return the Coq rendering of the reply.
+    /// Send the request, stop waiting for its reply at once (the future is polled once, which puts the
+    /// request into the actor's inbox, and dropped), then wait until the actor has passed it (a further
+    /// request, awaited). Only for `Close` and `SetSync`. Returns false when the reply arrived at the first
+    /// poll already (then nothing was cancelled and the caller records the reply).
+    pub async fn apply_cancelled(&mut self, op: &AOp) -> anyhow::Result<Option<String>> {
+        use std::future::Future;
+        let h = self.handle.clone();
+        let id = |b: &[u8; 32]| NamespaceId::from(b);
+        let early: Option<String> = match op {
+            AOp::Close { ns } => {
+                let mut fut = Box::pin(h.close(id(ns)));
+                let p = std::future::poll_fn(|cx| std::task::Poll::Ready(fut.as_mut().poll(cx))).await;
+                match p { std::task::Poll::Ready(r) => Some(match r { Ok(b) => format!("(ABool {})", cbool(b)), Err(e) => classify(&e) }), std::task::Poll::Pending => None }
+            }
+            AOp::SetSync { ns, b } => {
+                let mut fut = Box::pin(h.set_sync(id(ns), *b));
+                let p = std::future::poll_fn(|cx| std::task::Poll::Ready(fut.as_mut().poll(cx))).await;
+                match p { std::task::Poll::Ready(r) => Some(match r { Ok(()) => "AOk".to_string(), Err(e) => classify(&e) }), std::task::Poll::Pending => None }
+            }
+            _ => anyhow::bail!("only close and set_sync are issued without waiting"),
+        };
+        // the actor handles its inbox in order: once this later request is answered, the earlier one is done
+        let _ = self.handle.get_state(NamespaceId::from(&[0xABu8; 32])).await;
+        Ok(early)
+    }
+
     pub async fn apply(&mut self, op: &AOp, unknown_author: AuthorId) -> anyhow::Result<String> {
         let h = &self.handle;
         let id = |b: &[u8; 32]| NamespaceId::from(b);
@@ -489,9 +515,11 @@ pub fn run_into(pid: &str, seed: u64, n: usize, cw: &mut CaseWriter, stats_out: 
             (gen_concurrent(&mut rng, &uni, &mut stats), gen_concurrent(&mut rng, &uni, &mut stats))
         } else { (Vec::new(), Vec::new()) };
         let persistent = rng.chance(1, 6);
+        // which close / set_sync requests of a C14 history are not waited for (one in five)
+        let cancel_rolls: Vec<bool> = ops.iter().map(|_| pid == "C14" && rng.chance(1, 5)).collect();
         let mut ts = TestStore::new(persistent)?;
         let store = ts.store.take().unwrap();
-        let (coq, json, interesting) = rt.block_on(async {
+        let (coq, json, interesting, not_waited) = rt.block_on(async {
             let handle = SyncHandle::spawn(store, None, "verif".into());
             let mut txs = Vec::new();
             let mut rxs = Vec::new();
@@ -509,8 +537,17 @@ pub fn run_into(pid: &str, seed: u64, n: usize, cw: &mut CaseWriter, stats_out: 
             let mut hist = Vec::new();
             let mut jh = Vec::new();
             let mut interesting = false;
-            for op in &ops {
-                let r = client.apply(op, unknown).await?;
+            let mut cancelled: Vec<usize> = Vec::new();
+            for (pos, op) in ops.iter().enumerate() {
+                // C14: now and then the client stops waiting for a close / set_sync right after sending it
+                let r = if pid == "C14" && matches!(op, AOp::Close { .. } | AOp::SetSync { .. }) && cancel_rolls[pos] {
+                    match client.apply_cancelled(op).await? {
+                        Some(r) => r,
+                        None => { cancelled.push(pos + 1); "AOk".to_string() }
+                    }
+                } else {
+                    client.apply(op, unknown).await?
+                };
                 let evs = client.drain();
                 if !evs.is_empty() { interesting = true; }
                 let mut by_chan: HashMap<usize, usize> = HashMap::new();
@@ -565,12 +602,13 @@ pub fn run_into(pid: &str, seed: u64, n: usize, cw: &mut CaseWriter, stats_out: 
                 fin.push(format!("({}, {})", n256(&d.0), clist(&l, centry)));
             }
             drop(store);
-            let coq = format!("({}mkCase {} [{}] {} {} [{}] {})", if wrap.is_some() { "Actor." } else { "" }, code, hist.join("; "), conc[0], conc[1], fin.join("; "), cbool(inflight_answered));
+            let coq = format!("({}mkCase {} [{}] {} {} [{}] {} [{}])", if wrap.is_some() { "Actor." } else { "" }, code, hist.join("; "), conc[0], conc[1], fin.join("; "), cbool(inflight_answered), cancelled.iter().map(|p| p.to_string()).collect::<Vec<_>>().join("; "));
             let coq = match wrap { Some(w) => format!("({} {})", w, coq), None => coq };
-            let json = format!("{{\"store\":\"{}\",\"history\":[{}],\"two_concurrent_clients\":[{}],\"request_in_flight_at_shutdown_answered\":{}}}", if persistent { "file" } else { "memory" }, jh.join(","), jconc.join(","), inflight_answered);
-            anyhow::Ok((coq, json, interesting))
+            let json = format!("{{\"store\":\"{}\",\"history\":[{}],\"two_concurrent_clients\":[{}],\"request_in_flight_at_shutdown_answered\":{},\"requests_not_waited_for\":{:?}}}", if persistent { "file" } else { "memory" }, jh.join(","), jconc.join(","), inflight_answered, cancelled);
+            anyhow::Ok((coq, json, interesting, cancelled.len()))
         })?;
         stats.add("requests", ops.len() as u64);
+        stats.add("requests_not_waited_for", not_waited as u64);
         if interesting && distinct.insert(coq.clone()) {
             stats.inc("distinct_nontrivial");
         }
